@@ -259,9 +259,17 @@ func (p *Program) Callees(ci ssa.CallInstruction) []*ssa.Function {
 		out = append(out, callee)
 	}
 	for _, a := range c.Args {
-		if mc, ok := a.(*ssa.MakeClosure); ok {
-			if f, ok := mc.Fn.(*ssa.Function); ok {
-				out = append(out, f)
+		switch x := a.(type) {
+		case *ssa.MakeClosure:
+			// a function literal, or a bound method value (x.m passed as a func): the synthetic
+			// wrapper is resolved to the method it calls
+			if f, ok := x.Fn.(*ssa.Function); ok {
+				out = append(out, unwrapSynthetic(f))
+			}
+		case *ssa.Function:
+			// a named function passed as a value
+			if x.Blocks != nil {
+				out = append(out, unwrapSynthetic(x))
 			}
 		}
 	}
